@@ -136,7 +136,7 @@ def judge(lay, base_kinds, base_run, v, vkinds, vrun):
 def run(ctx, model_ok):
     rng = ctx.rng
     thorough = ctx.tier == "thorough"
-    n_prog = 1000 if thorough else 90
+    n_prog = 1000 if thorough else 130
     n_random = 12 if thorough else 5
     cap_single = 60 if thorough else 22
     bases = [("progs", s) for s in progs.generate(rng, n_prog)]
